@@ -68,7 +68,37 @@ def gen_cases(ctx, n):
         tags = set(tags) | {"m=" + meth}
         out.append(Case(S.dec_op(meth, declen, chunk, -1, sched, data), spec="%sexp %s" % (meth, d),
                         spec_judge=mk_spec_judge(declen), tags=tags, note="copy" if ("C" in d or "A" in d.split()[-1]) else ""))
+        if meth == "pm1":
+            # "a -pm1- stream that ends before the declared length is continued as if followed by zero bits":
+            # (a) the same stream with ALL its trailing zero bytes removed must decode to the same bytes;
+            stripped = data.rstrip(b"\0")
+            if len(stripped) < len(data):
+                out.append(Case(S.dec_op(meth, declen, chunk, -1, sched, stripped), spec="%sexp %s" % (meth, d), spec_judge=mk_spec_judge(declen),
+                                tags=tags | {"zero-tail-stripped", "lost=%d" % min(len(data) - len(stripped), 9)}, note="copy"))
+            # (b) a declared length far beyond what the stream denotes: the stream followed by any number of explicit zero bytes and
+            # the bare stream must decode alike (pairs, judged together)
+            if len(out) % 3 == 0:
+                gid = len(out)
+                more = full + r.choice([5, 64, 700, 5000])
+                for role, dd in (("a", data), ("b", data + bytes(r.choice([8, 64, 700])))):
+                    out.append(Case(S.dec_op(meth, more, chunk, -1, [], dd), tags=tags | {"zero-continued"}, note=("zc", gid, role)))
     return out
+
+
+def judge_groups(cases, c_outs):
+    why = {}
+    seen = {}
+    for i, c in enumerate(cases):
+        if isinstance(c.note, tuple) and c.note[0] == "zc":
+            if c.note[1] in seen:
+                j = seen[c.note[1]]
+                a, b = c_outs[j].split(" ")[0], c_outs[i].split(" ")[0]
+                if c_outs[j] != c_outs[i]:
+                    why[i] = ("a -pm1- stream read past its end is not continued as if followed by zero bits: with %s explicit zero bytes "
+                              "appended the decoder gives a different result (%s vs %s)" % ("some", core.short(c_outs[i], 80), core.short(c_outs[j], 80)))
+            else:
+                seen[c.note[1]] = i
+    return why
 
 
 def corpus_cases(ctx):
